@@ -378,6 +378,12 @@ class ReaderContract:
             if not isinstance(head, Enc):
                 if getattr(src, "general", False):
                     return self.general(interp, src)
+                if self.desc[0] in ("be", "le") and all(isinstance(x, (Raw, Lit)) for x in src.segs) \
+                        and ctx.entails(zint(src.remaining()) < self.desc[1]):
+                    # T clause of a fixed-width reader: fewer than w bytes are left (every such string is a strict prefix
+                    # of an encoding) - everything is consumed and BufferUnderflow is raised
+                    src.take_exact(src.remaining())
+                    raise PyRaise(BufferUnderflow)
                 raise Mismatch(f"{self.name} applied to non-encoded head {head!r}")
             hd = head.codec
             if hd == self.desc:
